@@ -13,8 +13,11 @@ import (
 	"sort"
 	"strings"
 	"testing"
+	"time"
 
 	"verifharness/kit"
+
+	"github.com/influxdata/kapacitor"
 
 	"github.com/influxdata/kapacitor/models"
 	"pgregory.net/rapid"
@@ -34,9 +37,19 @@ type Case struct {
 	Vars   string   `json:"vars"`  // var declarations (nested lambda variables)
 	Chain  []string `json:"chain"` // script fragments below groupBy
 	Pts    []P      `json:"pts"`
+	// FromGroup: the from() node already groups by the same tags (without the measurement); the
+	// groupBy node then repeats the tag list
+	FromGroup bool `json:"fromgroup,omitempty"`
+	// PauseAt > 0: the pipeline starts with barrier().idle(150ms).delete(TRUE) below the groupBy;
+	// before point PauseAt the feeder waits until every group has been deleted (every grouped
+	// node reports cardinality 0). A group starts afresh after its deletion.
+	PauseAt int `json:"pauseat,omitempty"`
 }
 
+const barrierIdle = 150 * time.Millisecond
+
 const ruleIso = "rapid: groupBy(dims|*)[.byMeasurement()] + 1-3 grouping-aware stateful nodes x points of 2-4 groups with hostile tag values x interleaving; " +
+	"optionally from() already grouped by the same tags, optionally barrier().idle().delete(TRUE) with a pause during which every group is deleted; " +
 	"oracle: output filtered to group g == output of a run fed only g; non-trivial = >=2 groups whose points are interleaved (not concatenated) below >=1 stateful node; distinct by case hash"
 
 const sec = int64(1e9)
@@ -157,6 +170,23 @@ func genIso(r *kit.Rec) func(t *rapid.T) Case {
 		c.Dims = rapid.SampledFrom([][]string{{"a"}, {"a", "b"}, {"*"}, {"b"}}).Draw(t, "dims")
 		c.ByMeas = rapid.IntRange(0, 3).Draw(t, "bymeas") == 0
 		c.Vars, c.Chain = genChain(t, r)
+		c.FromGroup = c.Dims[0] != "*" && rapid.IntRange(0, 4).Draw(t, "fromgroup") == 0
+		barrier := rapid.IntRange(0, 19).Draw(t, "barrier") == 0
+		if barrier {
+			// only nodes whose output does not depend on the barrier's own (wall-clock) time
+			c.Vars, c.Chain = "", nil
+			for i, k := 0, rapid.IntRange(1, 2).Draw(t, "bchain"); i < k; i++ {
+				c.Chain = append(c.Chain, []string{
+					fmt.Sprintf("|stateCount(lambda: \"v\" > %d).as('sc%d')", rapid.IntRange(0, 6).Draw(t, "bthr"), i),
+					fmt.Sprintf("|eval(lambda: count()).as('c%d').keep()", i),
+					"|where(lambda: count() % 2 == 1)",
+					"|changeDetect('v')",
+					"|sample(2)",
+					fmt.Sprintf("|derivative('v').as('d%d')", i),
+					"|cumulativeSum('v').as('v')",
+				}[rapid.IntRange(0, 6).Draw(t, "bnode")])
+			}
+		}
 		// 2-4 group tuples
 		ng := rapid.IntRange(2, 4).Draw(t, "ngroups")
 		type tup struct {
@@ -177,6 +207,9 @@ func genIso(r *kit.Rec) func(t *rapid.T) Case {
 			c.Pts = append(c.Pts, P{M: tp.m, A: tp.a, B: tp.b, V: int64(rapid.IntRange(0, 8).Draw(t, "v")),
 				Gap: rapid.SampledFrom([]int64{0, 1, sec, sec, sec, 2 * sec, 5 * sec}).Draw(t, "gap")})
 		}
+		if barrier {
+			c.PauseAt = rapid.IntRange(1, n-1).Draw(t, "pauseat")
+		}
 		return c
 	}
 }
@@ -185,6 +218,13 @@ func (c Case) script() string {
 	var s strings.Builder
 	s.WriteString(c.Vars)
 	s.WriteString("stream|from()")
+	if c.FromGroup {
+		var q []string
+		for _, d := range c.Dims {
+			q = append(q, "'"+d+"'")
+		}
+		fmt.Fprintf(&s, ".groupBy(%s)", strings.Join(q, ", "))
+	}
 	if c.Dims[0] == "*" {
 		s.WriteString("|groupBy(*)")
 	} else {
@@ -196,6 +236,9 @@ func (c Case) script() string {
 	}
 	if c.ByMeas {
 		s.WriteString(".byMeasurement()")
+	}
+	if c.PauseAt > 0 {
+		fmt.Fprintf(&s, "|barrier().idle(%dms).delete(TRUE)", barrierIdle/time.Millisecond)
 	}
 	for _, f := range c.Chain {
 		s.WriteString(f)
@@ -265,13 +308,79 @@ func obsKey(c Case, o kit.Obs) (key, gid string) {
 }
 
 func runOnce(c Case, pts []kit.Pt, needAlert bool) ([]kit.Obs, error, error) {
+	obs, _, defErr, runErr := runPaused(c, pts, -1, needAlert)
+	return obs, defErr, runErr
+}
+
+// runPaused feeds pts; before the point whose field n is >= pauseN (if pauseN >= 0) it waits until
+// the barrier has deleted every group. timing=false: the wall clock did not cooperate (a stall
+// while feeding let the idle barrier fire where none is planned, or the deletion was not seen
+// within the bound): the run says nothing.
+func runPaused(c Case, pts []kit.Pt, pauseN int64, needAlert bool) (obs []kit.Obs, timing bool, defErr, runErr error) {
 	env, err := kit.NewEnv(kit.EnvOpts{Alerts: needAlert})
 	if err != nil {
-		return nil, err, nil
+		return nil, false, err, nil
 	}
 	defer env.Close()
-	defErr, runErr := env.RunStream(c.script(), pts)
-	return env.Sink.By("S"), defErr, runErr
+	if pauseN < 0 {
+		defErr, runErr = env.RunStream(c.script(), pts)
+		return env.Sink.By("S"), true, defErr, runErr
+	}
+	et, err := env.StartTask("t"+kit.Unique(), c.script(), kapacitor.StreamTask, nil)
+	if err != nil {
+		return nil, false, err, nil
+	}
+	timing = true
+	paused := false
+	fed := 0
+	last := time.Now()
+	for _, p := range pts {
+		if !paused && p.Fields["n"].Go().(int64) >= pauseN {
+			paused = true
+			// wait until the points fed so far have arrived (some node holds a group), then until
+			// no grouped node holds a group any more
+			deadline := time.Now().Add(5 * time.Second)
+			seen := fed == 0
+			for {
+				st, serr := et.ExecutionStats()
+				groups := int64(0)
+				if serr == nil {
+					for _, ns := range st.NodeStats {
+						if v, ok := ns["working_cardinality"].(int64); ok {
+							groups += v
+						}
+					}
+				}
+				if serr == nil && groups > 0 {
+					seen = true
+				}
+				if serr == nil && groups == 0 && seen {
+					break
+				}
+				if time.Now().After(deadline) {
+					timing = false
+					break
+				}
+				time.Sleep(2 * time.Millisecond)
+			}
+			last = time.Now()
+		}
+		if time.Since(last) > barrierIdle/3 {
+			timing = false // a stall: the idle barrier may have fired in the middle of the data
+		}
+		if p.DB == "" {
+			p.DB, p.RP = "db", "rp"
+		}
+		if err := env.TM.WriteKapacitorPoint(p.Msg()); err != nil {
+			return nil, false, nil, err
+		}
+		fed++
+		last = time.Now()
+	}
+	env.TM.Drain()
+	et.StopStats()
+	runErr = et.Wait()
+	return env.Sink.By("S"), timing, nil, runErr
 }
 
 func fmtObs(os []kit.Obs) string {
@@ -287,7 +396,19 @@ func runIso(c Case, cc *kit.Case) {
 	pts := c.points()
 	script := c.script()
 	needAlert := strings.Contains(script, "|alert()")
-	full, defErr, runErr := runOnce(c, pts, needAlert)
+	pauseN := int64(-1)
+	if c.PauseAt > 0 {
+		pauseN = int64(c.PauseAt)
+		cc.Label("barrier-delete")
+	}
+	if c.FromGroup {
+		cc.Label("from-groups-by-the-same-tags")
+	}
+	full, timing, defErr, runErr := runPaused(c, pts, pauseN, needAlert)
+	if !timing {
+		cc.Label("barrier-timing-inconclusive")
+		return
+	}
 	if defErr != nil {
 		cc.Fail("harness/script-rejected", "script rejected: %v\n%s", defErr, script)
 		return
@@ -361,7 +482,11 @@ func runIso(c Case, cc *kit.Case) {
 
 	// isolation
 	for _, k := range order {
-		solo, dErr, rErr := runOnce(c, byKey[k], needAlert)
+		solo, timing, dErr, rErr := runPaused(c, byKey[k], pauseN, needAlert)
+		if !timing {
+			cc.Label("barrier-timing-inconclusive")
+			return
+		}
 		if dErr != nil || rErr != nil {
 			cc.Fail("task-error", "single-group run failed: %v %v\n%s", dErr, rErr, script)
 			return
@@ -385,8 +510,8 @@ func runIso(c Case, cc *kit.Case) {
 // ---------------------------------------------------------------- GroupID unit
 
 type IDCase struct {
-	ByName bool                `json:"byname"`
-	Dims   []string            `json:"dims"`
+	ByName bool     `json:"byname"`
+	Dims   []string `json:"dims"`
 	N1, N2 string
 	T1, T2 map[string]string
 }
@@ -455,6 +580,7 @@ var assumptions = []string{
 	"a missing tag and an empty tag value are the same value",
 	"known finding groupid/collision/unescaped-comma-equals: tag values containing both ',' and '=' are excluded by construction (counted); the witness is replayed on every run",
 	"measurement names do not contain a newline (line protocol cannot produce one)",
+	"barrier cases: the barrier works on the system clock; the feeder waits at the planned position until every grouped node reports cardinality 0 (bounded, 5 s) and checks that no stall longer than a third of the idle time occurred while feeding - otherwise the case is labelled inconclusive and not compared; only nodes whose output does not depend on the barrier's own time stamp follow the barrier; a group that was deleted starts afresh",
 }
 
 func TestIsolation(t *testing.T) {
